@@ -541,6 +541,11 @@ func (eng *Engine) verifyFunction(fn *ssa.Function, con *Contract, bounded int) 
 	if con.Panics != nil {
 		c.panicCond = c.defAlways("panics_when", "Bool", ec.boolOf(con.Panics.Expr))
 	}
+	// restrictions on the models asked for when a failing input is searched
+	// (never assumed in a proof): named terms defined now, asserted later
+	for _, ra := range con.ReplayAssume {
+		c.replayAssume = append(c.replayAssume, c.defAlways("replay_assume", "Bool", ec.boolOf(ra.Expr)))
+	}
 	c.entry = st.clone()
 	rst, rvals := c.run(fr, st)
 	c.resultVals = rvals
